@@ -1022,7 +1022,10 @@ def c08_lost_wakeup(env):
                 def replay(m, pos=pos):
                     if pos is None:
                         raise RuntimeError("this grant position has no native hook")
-                    return f"wakeup {pos} {model_value(m, credit)}", (lambda js: js.get("panic") or not js["second_ready"])
+                    # the waiter still pending after the grant -- or pending while it already holds the credit it was
+                    # granted (a send dropped there loses the credit) -- is the failure
+                    cmds = [f"wakeup {pos} {model_value(m, credit)}", f"wakeup 2 {max(model_value(m, credit), 1)}", f"wakeup 1 {max(model_value(m, credit), 1)}"]
+                    return cmds, (lambda outs: any(js.get("panic") or not js["second_ready"] or js.get("held_while_pending") for js in outs))
 
                 o.prove(f"grant {where}: second poll completes [poll1 path{i}, poll2 path{j}]", ex.assumptions + hyp0 + q.cond, q.ret["#d"] == 0, replay=replay)
     o.cover("schedules explored", [z3.BoolVal(total > 0 and sched_idx is not None)])
